@@ -229,6 +229,7 @@ type World struct {
 	ss                  stageState
 	fp                  *fpState
 	raceBase            int
+	recBytes            int64 // bytes of request and hook bodies recorded so far (run-away growth guard)
 	RaceProp            string
 	lastSig             int
 	budget              bool
@@ -441,6 +442,7 @@ func (t *APITransport) RoundTrip(req *http.Request) (*http.Response, error) {
 	}
 	r.sig = sigOf(r.Method, r.Path, r.Query, body)
 	w.mu.Lock()
+	w.recBytes += int64(len(body))
 	if w.crashed {
 		w.mu.Unlock()
 		select {} // this process is dead
@@ -522,6 +524,7 @@ func (t *HookTransport) RoundTrip(req *http.Request) (*http.Response, error) {
 		return resp, nil
 	}
 	w.mu.Lock()
+	w.recBytes += int64(len(body))
 	if w.crashed {
 		w.mu.Unlock()
 		select {}
